@@ -11,4 +11,18 @@
 // spend-from-account transactions and blocks on the real chain fixture with the
 // real $acl kernel contract and ACL manager, judged at State.VerifyTx against
 // the rule in force on the confirmed chain.
+//
+// Part C (fault.go): the fault dimension at the evaluation seam. The real
+// acl.Manager over a map-backed store; every lookup of every evaluation (call
+// into the AclManager interface, snapshot creation, snapshot Get) fails in turn;
+// a faulted evaluation may accept only if the healthy one does.
+//
+// Part D (forms.go): one judged transaction in every prepared chain state over
+// the request form (named contract, registry shortcut with an empty contract
+// name, another kernel contract writing the same bucket row; alone / after /
+// before an unrelated request), the initiator string (bare key, paths, account,
+// empty), pending creation / change of what the transaction depends on, and
+// every lookup of the ACL manager failing in turn during State.VerifyTx. The
+// permission a transaction needs is derived from its write set, inputs and
+// requests and evaluated by Part A's reference.
 package c11
